@@ -35,7 +35,7 @@ A = OperationAction
 
 ASSUMPTIONS_INV = batcher.ASSUMPTIONS_BATCHER + [
     "one user thread per invocation (sequential workflow): ThreadPoolExecutor(2) of the wrapper is replaced by a pool that runs the handler on the interpreter "
-    "thread and the checkpoint thread as a coroutine; the consumer runs (a) a solver-chosen number of steps at each preemption point of create_checkpoint and "
+    "thread and the checkpoint thread as a coroutine; the consumer runs (a) a solver-chosen number of steps right after the caller's i-th queue.put and "
     "(b) until the awaited completion event is set when the caller blocks",
     "backend model (harness/inv.Backend): START->STARTED (callback START returns an id), SUCCEED->SUCCEEDED(result), FAIL->FAILED(error), RETRY->PENDING(attempt+1, "
     "next attempt time), CONTEXT SUCCEED keeps ReplayChildren; between invocations due timers fire (PENDING->READY, WAIT STARTED->SUCCEEDED) and awaited "
@@ -329,7 +329,12 @@ class Runtime:
 
     current = None
 
-    def __init__(self, ksteps=()):
+    def __init__(self, ksteps=(), race=False):
+        self.race = race             # a waiter woken by Event.set runs IMMEDIATELY (before the setter's next statement)
+        self.blocked_gen = None
+        self.blocked_ev = None
+        self.early = None
+        self.after_put = False
         self.consumer = None
         self.consumer_done = False
         self.consumer_parked = False
@@ -354,7 +359,8 @@ class Runtime:
 
     def run_consumer(self, k):
         for _ in range(k):
-            if not self.consumer_step() or self.consumer_parked:
+            # a timed get that finds nothing simply times out (the user thread may be slower than the batching window)
+            if not self.consumer_step():
                 break
 
     def drive(self, gen):
@@ -367,9 +373,12 @@ class Runtime:
             if msg[0] == "blocked":
                 ev = msg[1]
                 idle_rounds = 0
+                self.blocked_gen, self.blocked_ev, self.early = gen, getattr(ev, "_event", ev), None
                 while not ev.is_set():
                     progressed = self.consumer_step()
                     if not progressed:
+                        if ev.is_set():
+                            break   # the consumer's last segment set the event before it exited
                         raise sched.Deadlock("caller blocked forever: the checkpoint thread has exited and the completion event was never set")
                     if self.consumer_parked:
                         idle_rounds += 1
@@ -377,11 +386,53 @@ class Runtime:
                             raise sched.Deadlock("caller blocked forever: the checkpoint thread idles with an empty queue and the event is not set")
                     else:
                         idle_rounds = 0
+                self.blocked_gen = self.blocked_ev = None
+                if self.early is not None:
+                    kind, val = self.early
+                    self.early = None
+                    if kind == "raise":
+                        raise val
+                    return val
             else:
-                k = self.ksteps[self.ki] if self.ki < len(self.ksteps) else 0
-                self.ki += 1
-                if k:
-                    self.run_consumer(k)
+                # run-ahead of the checkpoint thread: right after the caller's i-th put the consumer runs ksteps[i] steps
+                if self.after_put:
+                    self.after_put = False
+                    k = self.ksteps[self.ki] if self.ki < len(self.ksteps) else 0
+                    self.ki += 1
+                    if k:
+                        self.run_consumer(k)
+                if msg[0] == "pt" and msg[1] == "_checkpoint_queue.put":
+                    self.after_put = True
+
+
+    def on_event_set(self, ev):
+        """HookedEvent callback: with `race`, the blocked caller runs right now, inside the setter"""
+        if not self.race or self.blocked_gen is None or self.blocked_ev is not ev:
+            return
+        gen, self.blocked_gen = self.blocked_gen, None
+        try:
+            while True:
+                msg = gen.send(None)
+                if msg and msg[0] == "blocked":
+                    # blocked again on something else: give up the race simulation for this wait
+                    self.early = ("raise", sched.Deadlock("woken caller blocked again"))
+                    return
+        except StopIteration as e:
+            self.early = ("ret", e.value)
+        except BaseException as e:  # noqa: BLE001
+            if type(e).__module__.startswith("aws_durable_execution_sdk_python") or isinstance(e, Exception):
+                self.early = ("raise", e)
+            else:
+                raise
+
+
+class _RuntimeWorldAdapter:
+    """lets harness.batcher.HookedEvent report to the current Runtime"""
+
+    @staticmethod
+    def on_event_set(ev):
+        if Runtime.current is not None:
+            Runtime.current.on_event_set(ev)
 
 
 class VPool:
@@ -440,7 +491,8 @@ def install():
     ExecutionState._calculate_operation_size = staticmethod(lambda q: 0 if q.operation_update is None else 1)
     S.time = sched.Clock()
     sched.VQueue.clock = S.time
-    batcher.HookedEvent.world = None
+    sched.VQueue.join_hook = lambda q: Runtime.current is not None and Runtime.current.consumer_step() and not Runtime.current.consumer_parked
+    batcher.HookedEvent.world = _RuntimeWorldAdapter
 
     import datetime as _dtm
     import aws_durable_execution_sdk_python.lambda_service as LS
@@ -468,13 +520,13 @@ class Result:
         self.deadlock = None
 
 
-def run_execution(handler_fn, backend: Backend, max_invocations=6, ksteps=(), on_invocation=None):
+def run_execution(handler_fn, backend: Backend, max_invocations=6, ksteps=(), on_invocation=None, race=False):
     """Invoke until SUCCEEDED/FAILED (or max_invocations)."""
     res = Result()
     wrapped = durable_execution(handler_fn)
     for _ in range(max_invocations):
         ev = backend.invocation_event()
-        Runtime.current = Runtime(ksteps)
+        Runtime.current = Runtime(ksteps, race)
         if on_invocation is not None:
             on_invocation(backend.invocation)
         try:
@@ -483,7 +535,7 @@ def run_execution(handler_fn, backend: Backend, max_invocations=6, ksteps=(), on
             res.outputs.append(("crash",))
             backend.advance()
             continue
-        except sched.Deadlock as d:
+        except (sched.Deadlock, sched.StepLimit) as d:
             res.deadlock = d
             res.outputs.append(("deadlock", d))
             return res
